@@ -25,6 +25,8 @@ META["explanation"] += ' R06.6 lag => reset: the result of every receive is exam
 META["explanation"] += ' R05.4 (snapshot and receiver taken in one `&self` call) and R08.2 (one Sender, never cloned into something that outlives the vector) are part of the shared im_core group.'
 META["explanation"] += " R06.7 every Poll::Pending the vector streams build is dominated by a poll of the receive future (Pending is the channel's answer; no Pending while diffs of a message are still in hand)."
 META["explanation"] += " R06.1 a snapshot that is attached only conditionally (Option, bool::then, a helper returning Option) is VIOLATED, not undecided. R06.3 is judged on the streams' poll_next with private helpers and map-closures spliced in. R06.4's exit clause is stated on the drain loop (the cycle through try_recv is left only over Empty / Closed edges). R06.8 a stream that keeps a buffer of diffs next to its receiver empties it on the path that produces a Reset."
+META["explanation"] += ' R06.3 now covers the whole crate (a Reset made up by a mutator or by commit is a violation).'
+META["explanation"] += ' R06.6 lag-distinguished now covers every receive site of the crate (a helper that drains the receiver when the subscriber is converted must examine the error for Lagged as well - tokio reports a lag once).'
 
 SHRINKING = r"bin:(Div|Sub|Shr|Rem)|::(min|saturating_sub|checked_sub|wrapping_sub|div_ceil|checked_div|isqrt|ilog2|ilog10)$"
 
@@ -384,6 +386,36 @@ def r06_6(ctx):
                              "the result of the receive at bb%d is never examined for `Lagged`: a lagging receive is treated like another outcome and the skipped messages are lost without a Reset" % blk)
             elif blk in b.reachable():
                 ctx.holds("R06.6", f, "lag-distinguished", b.line_at((blk, 10 ** 6)), "the receive's error is examined for Lagged")
+    # receive sites anywhere else in the crate (a helper that drains the receiver when the subscriber is converted, ..): tokio
+    # reports a lag exactly once, so a receive whose error is not examined for `Lagged` swallows it for good
+    from ..inline import default_keep
+    streams_ = {g.key for g in F.find(crate=IM, name="poll_next") if g.raw.get("impl_trait") == "futures_core::Stream" and "VectorSubscriber" in (g.raw.get("self_ty") or "")}
+    for g in F.find(crate=IM):
+        b = g.built
+        if not b or g is lag:
+            continue
+        root = root_fn(F, g)
+        ecs = entry_callers(F, root) if not default_keep(root) else []
+        if root.key in streams_ or (ecs and all(ek.key in streams_ for ek in ecs)):
+            continue   # judged above (the stream itself, or a private helper spliced into it)
+        for blk, t in b.calls(RECV_SITE):
+            if re.search(r"ReusableBoxRecvFuture::<.*>::poll$", t.get("callee") or ""):
+                continue
+            if "make_recv_future" in g.path or g.kind == "coroutine":
+                continue   # the boxed receive future itself: its result is examined where it is polled
+            n += 1
+            loc_ = (blk, len(b.blocks[blk]["stmts"]))
+            seen_lag = False
+            for sblk in sorted(b.reachable()):
+                info = conds.switch_info(b, sblk)
+                if not info:
+                    continue
+                for t_, fs in info["edges"].items():
+                    for x in fs:
+                        if x[0] == "variant" and x[2] == frozenset(["Lagged"]) and contains(x[1], lambda y: y[0] == "call" and y[4] == loc_):
+                            seen_lag = True
+            ctx.verdict(seen_lag, "R06.6", root, "lag-distinguished", b.line_at((blk, 10 ** 6)), "the receive's error is examined for Lagged",
+                        "`%s` receives from the channel without examining the error for `Lagged`: tokio reports a lag only once and moves the cursor, so the skipped messages are lost without a Reset (the stream later resumes from the oldest retained message on top of stale values)" % root.path)
     ctx.floor("R06.6", n, 3)
 
 
